@@ -12,6 +12,7 @@ import (
 	"context"
 	"fmt"
 	"math/rand"
+	"reflect"
 	"sort"
 	"strconv"
 	"strings"
@@ -411,6 +412,13 @@ var c23Probes = []c23Probe{
 		c23P("a", "k1", "d1", func(o *c23Op) { o.Ver = 1 << 53 }), c23P("a", "k1", "d2", func(o *c23Op) { o.Ver = 1<<53 + 1 })}},
 	{name: "clear-epoch-reuse", cfg: c23Persistent, ops: []c23Op{
 		{Kind: "stream", Ch: "a", Limit: -1}, {Kind: "clear", Ch: "a"}, {Kind: "stream", Ch: "a", Limit: -1}}},
+	{name: "ephemeral-epoch", cfg: c23Ephemeral, ops: []c23Op{
+		c23P("a", "k1", "d1", nil), c23P("a", "k2", "d2", nil), {Kind: "state", Ch: "a", Limit: -1}}},
+	{name: "ephemeral-keymode", cfg: c23Ephemeral, ops: []c23Op{
+		c23P("a", "k1", "d1", func(o *c23Op) { o.Mode = "if_exists" }), {Kind: "state", Ch: "a", Limit: -1}}},
+	{name: "clear-idempotency", cfg: c23Persistent, ops: []c23Op{
+		c23P("a", "k1", "d1", func(o *c23Op) { o.Idem = "i1" }), {Kind: "clear", Ch: "a"},
+		c23P("a", "k1", "d2", func(o *c23Op) { o.Idem = "i1" }), {Kind: "state", Ch: "a", Limit: -1}}},
 	{name: "state-limit0-revision", cfg: c23Persistent, ops: []c23Op{
 		c23P("a", "k1", "d1", nil), {Kind: "state", Ch: "a", Limit: 0, Pos: true, POff: 1, PEpoch: "bogus"}}},
 }
@@ -437,7 +445,15 @@ func c23Gen(r *rand.Rand) []c23Op {
 		if _, ok := created[ch]; !ok {
 			created[ch] = i
 		}
-		switch k := r.Intn(12); {
+		switch k := r.Intn(13); {
+		case k == 12:
+			if r.Intn(2) == 0 {
+				ops = append(ops, c23Op{Kind: "clear", Ch: ch})
+				delete(created, ch)
+				count[ch] = 0
+			} else {
+				ops = append(ops, c23Op{Kind: "stream", Ch: ch, Limit: -1})
+			}
 		case k < 6:
 			id++
 			op := c23P(ch, keys[r.Intn(len(keys))], fmt.Sprintf("d%d", id), nil)
@@ -503,12 +519,51 @@ func c23Gen(r *rand.Rand) []c23Op {
 }
 
 // c23Tags names the known-disagreement families a case touches (finding key).
-func c23Tags(cfg c23Cfg, ops []c23Op, mem []c23Res) string {
+func c23Tags(cfg c23Cfg, ops []c23Op, mem []c23Res, red []c23Res) string {
 	t := map[string]bool{}
+	if cfg.Mode == 1 && len(red) == len(mem) {
+		// KeyMode is evaluated inside the "meta_key ~= ''" block of map_broker_add.lua: ignored when streamless
+		for i, op := range ops {
+			if op.Kind == "pub" && op.Mode != "" && op.Key != "" && mem[i].Kind == "upd" && mem[i].Supp &&
+				(mem[i].Reason == "key_exists" || mem[i].Reason == "key_not_found") {
+				return "map-ephemeral-keymode"
+			}
+		}
+		// streamless channels have no meta key: Redis reports a fresh / empty epoch on every call
+		sameNoEpoch := true
+		for i := range mem {
+			a, b := red[i], mem[i]
+			a.Epoch, b.Epoch = "", ""
+			if a.Kind == "unrec" && ops[i].Pos && ops[i].PEpoch != "" {
+				continue // a position taken from an earlier result never matches the epoch of this call
+			}
+			if !reflect.DeepEqual(a, b) {
+				sameNoEpoch = false
+			}
+		}
+		if sameNoEpoch {
+			return "map-ephemeral-epoch"
+		}
+	}
 	exists := map[string]bool{}
 	pubs := map[string]int{}
 	cleared := map[string]bool{}
+	idems := map[string]bool{}      // ch + "\x00" + idempotency key used so far
+	staleIdems := map[string]bool{} // ... that survived a Clear of the channel
 	for i, op := range ops {
+		if (op.Kind == "pub" || op.Kind == "rem") && op.Idem != "" {
+			if staleIdems[op.Ch+"\x00"+op.Idem] {
+				t["map-clear-idempotency"] = true
+			}
+			idems[op.Ch+"\x00"+op.Idem] = true
+		}
+		if op.Kind == "clear" {
+			for k := range idems {
+				if strings.HasPrefix(k, op.Ch+"\x00") {
+					staleIdems[k] = true
+				}
+			}
+		}
 		if strings.ContainsAny(op.Ch, ":.") {
 			t["map-key-collision"] = true
 		}
@@ -532,6 +587,9 @@ func c23Tags(cfg c23Cfg, ops []c23Op, mem []c23Res) string {
 			}
 			if !exists[op.Ch] && op.Pos && op.PEpoch == "" {
 				t["map-state-missing-channel-empty-revision"] = true
+			}
+			if cleared[op.Ch] && !exists[op.Ch] && op.Key == "" && op.Limit == 0 {
+				t["map-clear-epoch-reuse"] = true
 			}
 			if exists[op.Ch] && op.Key == "" && op.Limit == 0 && op.Pos && i < len(mem) && mem[i].Kind == "unrec" {
 				t["map-state-limit0-revision"] = true
@@ -565,7 +623,7 @@ func c23Tags(cfg c23Cfg, ops []c23Op, mem []c23Res) string {
 		ks = append(ks, k)
 	}
 	sort.Strings(ks)
-	return strings.Join(ks, "+")
+	return ks[0] // one family per case (the check matches keys exactly); the first in name order
 }
 
 func TestVerifC23(t *testing.T) {
@@ -623,7 +681,7 @@ func TestVerifC23(t *testing.T) {
 		}
 		cfgC := vApp("mkMC", vN(uint64(cfg.Mode)), vZ(cfg.KeyTTL), vZ(int64(cfg.Size)), vZ(cfg.STTL), vZ(cfg.MTTL), vBool(cfg.Ordered))
 		term := vApp("mkCase", cfgC, vList(opsC), vList(redC), vList(memC), vList(wireC))
-		key := c23Tags(cfg, ops, mr.res)
+		key := c23Tags(cfg, ops, mr.res, rr.res)
 		js := map[string]any{"cfg": cfg, "ops": ops, "redis": rr.res, "memory": mr.res, "key": key, "class": class}
 		w.Case(i, term, js, class, len(ops) >= 4 && upd >= 2 && stateNonEmpty)
 	}
